@@ -128,10 +128,10 @@ func genC12Input(maxSize int) func(t *rapid.T) c12Input {
 			size = maxSize
 		}
 		return c12Input{
-			Size:  size,
-			Shape: rapid.SampledFrom([]string{"random", "run", "period", "text", "mixed", "text", "stream", "magic"}).Draw(t, "shape"),
-			Seed:  rapid.Uint32().Draw(t, "seed"),
-			Level: rapid.IntRange(-1, 12).Draw(t, "level"),
+			Size:      size,
+			Shape:     rapid.SampledFrom([]string{"random", "run", "period", "text", "mixed", "text", "stream", "magic"}).Draw(t, "shape"),
+			Seed:      rapid.Uint32().Draw(t, "seed"),
+			Level:     rapid.IntRange(-1, 12).Draw(t, "level"),
 			Reload:    rapid.IntRange(0, 2).Draw(t, "reload") == 0,
 			PrevLevel: rapid.IntRange(0, 12).Draw(t, "prevLevel"),
 		}
@@ -290,6 +290,17 @@ func execC12Decode(in c12Input) *vstat.Outcome {
 		streams = append(streams, stream{"gzip", "three concatenated gzip members", multi})
 		zmulti := append(append([]byte{}, refZstd(a, 1)...), refZstd(append(append([]byte{}, b...), c...), zl)...)
 		streams = append(streams, stream{"zst", "two concatenated zstd frames", zmulti})
+		// skippable frames (RFC 8878 3.1.2: magic 0x184D2A5x, 4-byte size, user data) may stand anywhere in a stream
+		skip := func(nibble byte, user []byte) []byte {
+			f := []byte{0x50 | nibble, 0x2A, 0x4D, 0x18, byte(len(user)), byte(len(user) >> 8), byte(len(user) >> 16), byte(len(user) >> 24)}
+			return append(f, user...)
+		}
+		if in.Seed%4 == 0 { // pike's zst decoder leaks its goroutines and buffers per call: keep the number of zst decodes per process where it was
+			lead := append(skip(byte(in.Seed)&15, []byte("user data of a skippable frame")[:int(in.Seed>>4)%31]), refZstd(data, zl)...)
+			streams = append(streams, stream{"zst", "zstd frame after a leading skippable frame", lead})
+			trail := append(append([]byte{}, refZstd(data, zl)...), skip(0, nil)...)
+			streams = append(streams, stream{"zst", "zstd frame followed by an empty skippable frame", trail})
+		}
 	}
 	if len(data) > 0 {
 		streams = append(streams, stream{"lz4", "literal-only block", refLZ4Literal(data)})
